@@ -130,7 +130,15 @@ def parse_all(structs, orders, digest_kw, workdir):
             if oi == 1:
                 random.Random(oseed).shuffle(entries)  # interleave targets and decoys arbitrarily
             path = Path(workdir) / f"s{si}_{oi}.fasta"
-            datagen.write_fasta(path, entries)
+            if oi == 2 and len(entries) > 1:
+                # the same entries spread over two files (read_fasta accepts several)
+                cut = 1 + (oseed + si) % (len(entries) - 1)
+                path2 = Path(workdir) / f"s{si}_{oi}b.fasta"
+                datagen.write_fasta(path, entries[:cut])
+                datagen.write_fasta(path2, entries[cut:])
+                path = (path, path2)
+            else:
+                datagen.write_fasta(path, entries)
             try:
                 prot = mokapot.read_fasta(path, **digest_kw)
                 per.append(canonical(prot))
